@@ -8,6 +8,14 @@
 (*         Cycle{sc, ops, obs, d, c}       ops applied since the last collection   *)
 (*             point, obs = the table the callbacks read, d / c = projection of    *)
 (*             what the delta / cumulative reader reported for this stream         *)
+(*         Over{sc, ops, obs, x, p1, p2, q1, q2}   TWO collection points with       *)
+(*             nothing in between at which reader x was collected by two           *)
+(*             OVERLAPPING Collect calls (the other reader twice in a row).  The   *)
+(*             SDK serialises the collections of one reader, so one of the two     *)
+(*             serial orders must explain what the two calls returned: p1, p2 =    *)
+(*             [d, c] projections of the two points in the order of the SDK's own  *)
+(*             timestamps, q1, q2 = the same with x's two results swapped (the     *)
+(*             structural time relations re-projected for that order)              *)
 (* Reader data: [has, temp, dt, junk, pts[a]];  point: [p, x, v, n, s, b, z, sc,   *)
 (*   pos, neg, sle, sprev, sgap, scont, sfirst]  (see docs/notes/C08.md).  The      *)
 (*   timestamps of the real points are projected by the harness onto STRUCTURAL    *)
@@ -30,9 +38,11 @@ EXTENDS TemporalityModel, TraceKit
 VARIABLES l, C, st, mon
 vars == <<l, C, st, mon>>
 
-C0 == WithTables([kind |-> "Counter", agg |-> "sum", na |-> 1, vals |-> <<1>>, unit |-> 1, bounds |-> <<>>, ncb |-> 1])
+C0 == WithTables([kind |-> "Counter", agg |-> "sum", na |-> 1, vals |-> <<1>>, unit |-> 1, bounds |-> <<>>, ncb |-> 1,
+                  wide |-> FALSE, exps |-> <<>>])
 
-NoSum(cf) == cf.kind \in {"UpDownCounter", "ObsUpDownCounter", "Gauge", "ObsGauge"}
+(* sum not collected for the kind, or not exactly comparable (wide value range) *)
+NoSum(cf) == cf.kind \in {"UpDownCounter", "ObsUpDownCounter", "Gauge", "ObsGauge"} \/ cf.wide
 
 -----------------------------------------------------------------------------
 (* exponential buckets as functions index -> count *)
@@ -173,9 +183,35 @@ TCycle ==
         /\ \A v \in viols : Viol([line |-> l, sc |-> T.sc, rd |-> v.rd, a |-> v.a, clause |-> v.clause])
   /\ l' = l + 1 /\ UNCHANGED C
 
+(* the violations of one collection point with projections P = [d, c], model state s2, *)
+(* monitor m1 = the monitor after P.d                                                  *)
+PointViols(s2, m1, P) ==
+  IF ~(ShapeOK(C, P.d) /\ ShapeOK(C, P.c)) THEN {[rd |-> "?", a |-> 0, clause |-> "shape"]}
+  ELSE AbsViols(C, "d", s2.out.d, P.d) \cup AbsViols(C, "c", s2.out.c, P.c) \cup RelViols(C, m1, P.c)
+
+TOver ==
+  /\ l <= Len(Trace) /\ Trace[l].ev = "Over"
+  /\ LET T == Trace[l]
+         s1 == ApplyOps(C, st, T.ops)
+         s2 == DoCollect(C, s1, T.obs)
+         s3 == DoCollect(C, s2, T.obs)
+         shape(P) == ShapeOK(C, P.d) /\ ShapeOK(C, P.c)
+         mp1 == IF shape(T.p1) THEN NextMon(C, mon, T.p1.d) ELSE mon
+         mp2 == IF shape(T.p2) THEN NextMon(C, mp1, T.p2.d) ELSE mp1
+         mq1 == IF shape(T.q1) THEN NextMon(C, mon, T.q1.d) ELSE mon
+         mq2 == IF shape(T.q2) THEN NextMon(C, mq1, T.q2.d) ELSE mq1
+         vp == PointViols(s2, mp1, T.p1) \cup PointViols(s3, mp2, T.p2)
+         vq == PointViols(s2, mq1, T.q1) \cup PointViols(s3, mq2, T.q2)
+         useq == vp # {} /\ vq = {}
+         viols == IF vp = {} \/ vq = {} THEN {} ELSE vp      \* neither serial order explains the pair
+     IN /\ st' = s3
+        /\ mon' = IF useq THEN mq2 ELSE mp2
+        /\ \A v \in viols : Viol([line |-> l, sc |-> T.sc, rd |-> v.rd, a |-> v.a, clause |-> v.clause, over |-> T.x])
+  /\ l' = l + 1 /\ UNCHANGED C
+
 TDone == l = Len(Trace) + 1 /\ Accepted(l) /\ UNCHANGED vars
 
-Next == TNew \/ TCycle \/ TDone
+Next == TNew \/ TCycle \/ TOver \/ TDone
 Spec == Init /\ [][Next]_vars
 
 (* the statement holds on the model image of every real history, at every step *)
